@@ -51,15 +51,16 @@ impl Entry {
     fn args(&self) -> Vec<&'static str> {
         use Entry::*;
         match self {
-            SigVerify | MultiVerify | ShareVerify => vec!["sig", "pk"],
+            // "large" is not a substitution: the message / payload is 1 MiB + 1 byte long (the honest run with it must succeed)
+            SigVerify | MultiVerify | ShareVerify => vec!["sig", "pk", "large"],
             AggVerify { .. } => vec!["pk_pos", "sig_id", "sig_rest", "all_pk"],
             MultiAccum => vec!["key_cancels", "sig_cancels"],
             PopVerify => vec!["pop", "pk"],
             Pok => vec!["u", "v", "pk", "y", "u_cancels", "u_forged"],
             PokTs => vec!["u", "v", "pk", "u_forged"],
-            ScValid | ScDecrypt | ScKeyDecrypt | ScDecryptShares => vec!["u", "w"],
+            ScValid | ScDecrypt | ScKeyDecrypt | ScDecryptShares => vec!["u", "w", "large"],
             ScShareVerify => vec!["share", "pks", "w", "u"],
-            TlDecrypt => vec!["sig", "u"],
+            TlDecrypt => vec!["sig", "u", "large"],
             EgVerify => vec!["pk", "c1", "c2", "mp", "bp", "ch"],
             EgVerifyDecrypt => vec!["sk", "c1", "c2", "mp", "bp", "ch"],
             EncryptTimeLock | EncryptElGamal | EncryptElGamalProof => vec!["pk"],
@@ -257,13 +258,19 @@ impl<C: Suite> Model for M04<C> {
         use Entry::*;
         let g = C::G;
         let is = |n: &str| st.ids.iter().any(|x| x == n);
-        let honest = st.ids.is_empty();
+        let honest = st.ids.iter().all(|x| x == "large");
         let s = st.s;
         let ls = lib_scheme(s);
         let sk = &self.sks[0];
         let sk2 = &self.sks[1];
         let pk = sk.public_key();
-        let msg = &self.msg;
+        let big;
+        let msg = if is("large") {
+            big = msg_of(self.seed, (1 << 20) + 1, 3);
+            &big
+        } else {
+            &self.msg
+        };
         let id_s = SgP::<C>::identity();
         let id_p = PkP::<C>::identity();
         let zero = Sc::<C>::ZERO;
